@@ -63,10 +63,21 @@ static void gen_addr(vh_rng_t *rng)
   r                  = (int)vh_below(rng, 100);
   ad_plan.nrec       = r < 10 ? 0 : r < 50 ? vh_range(rng, 1, 4) : r < 85 ? vh_range(rng, 5, 40) : vh_range(rng, 41, 200);
   ad_plan.cname_chain  = vh_chance(rng, 1, 3) ? vh_range(rng, 1, 3) : 0;
-  ad_plan.other_family = vh_chance(rng, 1, 6);
+  ad_plan.other_family = vh_chance(rng, 1, 5) ? vh_range(rng, 1, 3) : 0; /* alternating, foreign run first, foreign run last */
   {
     static const uint32_t tt[] = { 0, 1, 60, 300, 86400, 0x7fffffff };
     ad_plan.ttl                = tt[vh_below(rng, 6)];
+  }
+  if (ad_plan.nrec >= 2 && ad_plan.nrec <= 40 && vh_chance(rng, 1, 4)) {
+    /* one of the sockets opened after the query's own fails: a source-address probe of the sort.  The sort may be
+     * abandoned, the addresses may not */
+    static const int errs[] = { EMFILE, ENOBUFS, EACCES, EAFNOSUPPORT, ENFILE };
+    sim_nfaults          = 1;
+    sim_faults[0].kind   = vh_chance(rng, 3, 4) ? SF_SOCKET : SF_CONNECT;
+    sim_faults[0].nth    = vh_range(rng, 2, 2 + (ad_plan.nrec < 12 ? ad_plan.nrec : 12));
+    sim_faults[0].err    = errs[vh_below(rng, 5)];
+    sim_faults[0].fired  = 0;
+    sim_note("addr_probe_socket_fault_planned");
   }
   ad_plan.foreign_class_every = vh_chance(rng, 1, 6) ? vh_range(rng, 2, 5) : 0;
   ad_plan.dup_every           = vh_chance(rng, 1, 6) ? vh_range(rng, 2, 5) : 0;
@@ -407,7 +418,8 @@ static void mon_addr(void)
         vh_violation("addr:sortlist-rank", "'%s': address with sortlist rank %d returned after rank %d", t->name, rank, lastrank);
         return;
       }
-      if (rank == lastrank && rank == 2 && idx < lastidx && !ad_plan.dup_every) {
+      if (rank == lastrank && rank == 2 && idx < lastidx && !ad_plan.dup_every && sim_faults_fired == 0) {
+        /* (a failed source-address probe legitimately moves its destination behind the others) */
         vh_violation("addr:sortlist-unstable", "'%s': addresses of equal rank returned out of answer order (%d after %d)", t->name, idx, lastidx);
         return;
       }
